@@ -276,6 +276,8 @@ pub enum FaultKind {
     BitFlip { seg: Seg, bit: usize },
     /// replace character at byte position `pos` of the token text (ASCII tokens) by `c`
     CharSubst { pos: usize, c: char },
+    /// replace the base64url symbol at `pos` by the next symbol of the alphabet
+    CharNext { pos: usize },
     /// keep the first `n` bytes of the token text
     Truncate { n: usize },
     /// append text
